@@ -1,5 +1,10 @@
 //! C06 — chunker correspondence: real `ChunkIter` (hook `verif::chunker::chunk_iter`) and real
 //! `rustic_cdc::Rabin64` vs. the Lean model; plus the direct oracle (lossless, bounds).
+//! `rabinfail … <failat> <data>` / `fixedfail <size> <seed> <failat> <data>`: the same iterators on a reader that delivers
+//! `data[..failat]` (fragmented by seed) and then answers every `read` with an error other than `Interrupted`
+//! (`Model/ChunkerErr.lean`, theorem `reader_error_is_reported`) -> `ok <lengths of the Ok chunks> end=<err|none>`; oracle:
+//! the iteration must end with `Some(Err)` (`oracle-fail:silent-truncation` if it ends with `None`) and the Ok chunks must
+//! concatenate to a prefix of the delivered bytes.
 use crate::util::{FragReader, Rng, Stats, guarded, hex, unhex};
 use rustic_cdc::{Rabin64, RollingHash64};
 use rustic_core::repofile::{Chunker, ConfigFile};
@@ -110,6 +115,52 @@ pub fn generate(thorough: bool, rng: &mut Rng, ops: &mut Vec<String>, stats: &mu
             ));
         }
     }
+    // failing readers: failure position at 0, inside / at the border of a chunk, at the buffer size, at the end, past the end
+    for _ in 0..(if thorough { 1200 } else { 200 }) {
+        let fixed = rng.chance(1, 4);
+        let poly = if rng.chance(1, 3) { DEFAULT_POLY } else { (rng.next() & ((1 << 54) - 1)) | (1 << 53) | 1 };
+        let avg_bits = rng.range(4, 12);
+        let avg = 1usize << avg_bits;
+        let min = match rng.below(6) {
+            0 => 1,
+            1 => avg,
+            2 => 64.min(avg),
+            3 => 4097.min(avg),
+            _ => rng.range(1, avg as u64) as usize,
+        };
+        let max = match rng.below(4) {
+            0 => avg,
+            1 => 2 * avg,
+            _ => rng.range(avg as u64, 8 * avg as u64) as usize,
+        };
+        let size = match rng.below(4) {
+            0 => 1,
+            1 => 4096,
+            _ => rng.range(1, 9000) as usize,
+        };
+        let (lo, hi) = if fixed { (size, size) } else { (min, max) };
+        let len = pick_len(rng, lo, hi, 20_000);
+        let data = data_kind(rng, len, stats);
+        let fail_at = match rng.below(10) {
+            0 => 0,
+            1 => len,
+            2 => len + 1 + rng.below(10) as usize,
+            3 => lo.min(len),
+            4 => lo.saturating_sub(1).min(len),
+            5 => hi.min(len),
+            6 => 4096.min(len),
+            7 => len.saturating_sub(1),
+            _ => rng.below(len as u64 + 1) as usize,
+        };
+        let seed = rng.below(1 << 32);
+        stats.hit(if fixed { "fail.fixed" } else { "fail.rabin" });
+        stats.hit(if fail_at == 0 { "fail.at-0" } else if fail_at >= len { "fail.at-or-past-end" } else { "fail.inside" });
+        if fixed {
+            ops.push(format!("c06 fixedfail {size} {seed} {fail_at} {}", hex(&data)));
+        } else {
+            ops.push(format!("c06 rabinfail {poly:x} {avg} {min} {max} {seed} {fail_at} {}", hex(&data)));
+        }
+    }
     let n_fixed = if thorough { 600 } else { 120 };
     for _ in 0..n_fixed {
         let size = match rng.below(6) {
@@ -167,6 +218,63 @@ fn run_chunker(cfg: &ConfigFile, data: &[u8], seed: u64) -> Result<Vec<Vec<u8>>,
         }
     }
     Ok(chunks)
+}
+
+/// `data` through a fragmenting reader, then a persistent non-`Interrupted` error instead of end-of-file.
+struct FailingReader {
+    inner: FragReader,
+}
+
+impl std::io::Read for FailingReader {
+    fn read(&mut self, buf: &mut [u8]) -> std::io::Result<usize> {
+        if buf.is_empty() {
+            return Ok(0);
+        }
+        match self.inner.read(buf) {
+            Ok(0) => Err(std::io::Error::new(std::io::ErrorKind::Other, "injected read failure")),
+            r => r,
+        }
+    }
+}
+
+fn run_failing(cfg: &ConfigFile, data: &[u8], fail_at: usize, seed: u64) -> String {
+    let delivered = &data[..fail_at.min(data.len())];
+    let mode = (seed % 5) as u8;
+    let hint = match (seed / 5) % 4 {
+        0 => 0,
+        1 => data.len(),
+        2 => data.len() / 2,
+        _ => usize::MAX,
+    };
+    let reader = FailingReader { inner: FragReader::new(delivered.to_vec(), seed, mode) };
+    let it = match rustic_core::verif::chunker::chunk_iter(cfg, reader, hint) {
+        Ok(i) => i,
+        Err(e) => return crate::util::errkind(&e),
+    };
+    let mut chunks: Vec<Vec<u8>> = Vec::new();
+    let mut end = "none";
+    for c in it {
+        match c {
+            Ok(c) => chunks.push(c),
+            Err(_) => {
+                end = "err";
+                break;
+            }
+        }
+        if chunks.len() > data.len() + 2 {
+            return "oracle-fail:nonterminating".into();
+        }
+    }
+    if end == "none" {
+        // the reader failed, the consumer saw a normal end: a truncated stream that looks complete
+        return "oracle-fail:silent-truncation".into();
+    }
+    let cat = chunks.concat();
+    if cat.len() > delivered.len() || cat[..] != delivered[..cat.len()] {
+        return "oracle-fail:chunks-not-a-prefix".into();
+    }
+    let v: Vec<String> = chunks.iter().map(|c| c.len().to_string()).collect();
+    format!("ok {}{}end={end}", v.join(" "), if v.is_empty() { "" } else { " " })
 }
 
 fn lens(chunks: &[Vec<u8>]) -> String {
@@ -230,6 +338,32 @@ pub fn exec(t: &[&str]) -> String {
                 }
                 Err(e) => e,
             }
+        }
+        ["rabinfail", poly, avg, min, max, seed, fail_at, data] => {
+            let (Ok(poly), Ok(avg), Ok(min), Ok(max), Ok(seed), Ok(fail_at), Some(data)) = (
+                u64::from_str_radix(poly, 16),
+                avg.parse::<usize>(),
+                min.parse::<usize>(),
+                max.parse::<usize>(),
+                seed.parse::<u64>(),
+                fail_at.parse::<usize>(),
+                unhex(data),
+            ) else {
+                return "bad-op".into();
+            };
+            if min == 0 {
+                return "bad-op".into();
+            }
+            run_failing(&config(Chunker::Rabin, poly, avg, min, max), &data, fail_at, seed)
+        }
+        ["fixedfail", size, seed, fail_at, data] => {
+            let (Ok(size), Ok(seed), Ok(fail_at), Some(data)) = (size.parse::<usize>(), seed.parse::<u64>(), fail_at.parse::<usize>(), unhex(data)) else {
+                return "bad-op".into();
+            };
+            if size == 0 {
+                return "bad-op".into();
+            }
+            run_failing(&config(Chunker::FixedSize, DEFAULT_POLY, size, size, size), &data, fail_at, seed)
         }
         ["fixed", size, seed, data] => {
             let (Ok(size), Ok(seed), Some(data)) = (size.parse::<usize>(), seed.parse::<u64>(), unhex(data)) else {
